@@ -406,7 +406,7 @@ pub fn driver_panicked(id: &str, tier: Tier) -> ! {
             });
             let _ = std::fs::create_dir_all(root.join("evidence"));
             let _ = std::fs::write(root.join("evidence").join(format!("{}.json", id)), serde_json::to_string_pretty(&ev).unwrap());
-            println!("VIOLATION property={} replay={} :: the library panicked during valid API use by the check itself (key generation / signing outside a guarded region): {} @ {}", id, rel, msg, loc);
+            println!("VIOLATION property={} replay={} :: the library panicked during valid API use made by the check itself outside a guarded region: {} @ {}", id, rel, msg, loc);
             std::process::exit(1)
         }
         machinery_error(&format!("check driver panicked: {} @ {}", msg, loc));
